@@ -136,6 +136,9 @@ class Accessory:
         if variant == "wrong_id_signed":
             ident = b"11:22:33:44:55:66"
             info = self.acc_pk + ident + self.ios_pk
+        if variant == "case_variant_id_signed":
+            ident = self.acc_id.lower()
+            info = self.acc_pk + ident + self.ios_pk
         if variant == "id_mismatch_unsigned":
             ident = b"11:22:33:44:55:66"
         if variant == "wrong_enc_key":
@@ -249,6 +252,14 @@ class Accessory:
             proof = bytes([proof[0] ^ 1]) + proof[1:]
         if variant == "m4_proof_low_bitflip":
             proof = proof[:-1] + bytes([proof[-1] ^ 1])
+        if variant == "m4_proof_suffix16":
+            proof = proof[-16:]
+        if variant == "m4_proof_last_byte":
+            proof = proof[-1:]
+        if variant == "m4_proof_empty":
+            proof = b""
+        if variant == "m4_proof_prefix16":
+            proof = proof[:16]
         m4 = [[6, bytearray(b"\x04")], [4, bytearray(proof)]]
         if variant == "m4_error_auth":
             m4 = [[6, bytearray(b"\x04")], [7, bytearray(b"\x02")]]
@@ -310,14 +321,17 @@ class Accessory:
 
 
 VERIFY_BAD = [
-    "wrong_ltsk", "permuted_transcript", "other_exchange", "wrong_id_signed", "id_mismatch_unsigned", "wrong_enc_key",
+    "wrong_ltsk", "permuted_transcript", "other_exchange", "wrong_id_signed", "case_variant_id_signed", "id_mismatch_unsigned", "wrong_enc_key",
     "wrong_nonce", "sig_bitflip", "no_signature", "no_identifier", "ct_bitflip", "tag_bitflip", "truncated", "pk_bitflip",
     "short_pk", "no_pk", "no_enc", "error_auth", "error_no_state", "wrong_state",
 ]
 VERIFY_M4_BAD = ["m4_error", "m4_error_no_state", "m4_wrong_state"]
 RESUME_BAD = ["resume_wrong_secret", "resume_tag_bitflip", "resume_nonempty_plaintext", "resume_wrong_method"]
 SETUP_BAD_M2 = ["m2_error_unavailable", "m2_error_no_state", "m2_no_salt", "m2_no_pk"]
-SETUP_BAD_M4 = ["wrong_code_accessory", "m4_proof_bitflip", "m4_proof_low_bitflip", "m4_error_auth", "m4_no_proof"]
+SETUP_BAD_M4 = [
+    "wrong_code_accessory", "m4_proof_bitflip", "m4_proof_low_bitflip", "m4_error_auth", "m4_no_proof",
+    "m4_proof_suffix16", "m4_proof_last_byte", "m4_proof_empty", "m4_proof_prefix16",
+]
 SETUP_BAD_M6 = [
     "m6_wrong_signer", "m6_sig_other_id", "m6_sig_other_key", "m6_wrong_enc_key", "m6_wrong_nonce", "m6_sig_bitflip",
     "m6_no_sig", "m6_no_id", "m6_no_ltpk", "m6_ct_bitflip", "m6_truncated", "m6_error", "m6_no_enc", "m6_wrong_state",
@@ -383,6 +397,42 @@ def run_verify(get_session_keys, variant="honest", resume=None):
         if resume and "resume_request_ok" in out and len(m2) == 4:
             out["resumed"] = True
             out["sid_ok"] = sid == acc.new_sid
+    except Exception as e:  # noqa: BLE001
+        out["outcome"] = "raised"
+        out["exception"] = type(e).__name__
+    return out
+
+
+def run_verify_replay_across_exchanges(get_session_keys):
+    """record the genuine M2/M4 of one exchange and replay them into a second exchange of the same process:
+    the second exchange must fail (its fresh ephemeral key differs)"""
+    acc = Accessory()
+    ios_ltsk = ed25519.Ed25519PrivateKey.generate()
+    ios_ltpk = ios_ltsk.public_key().public_bytes(*RAW)
+    ios_id = "decc6fa3-de3e-41c9-adba-ef7409821bfc"
+    pairing = {
+        "AccessoryPairingID": acc.acc_id.decode(), "AccessoryLTPK": acc.ltpk.hex(), "iOSPairingId": ios_id,
+        "iOSDeviceLTSK": ios_ltsk.private_bytes(serialization.Encoding.Raw, serialization.PrivateFormat.Raw, serialization.NoEncryption()).hex(),
+        "iOSDeviceLTPK": ios_ltpk.hex(),
+    }
+    g1 = get_session_keys(pairing)
+    req, exp = g1.send(None)
+    m2 = acc.verify_m2(req)
+    req, exp = g1.send([list(x) for x in m2])
+    m4 = acc.verify_m4(req, ios_id.encode(), ios_ltpk)
+    try:
+        g1.send(m4)
+    except StopIteration:
+        pass
+    out = {"variant": "replay_recorded_m2_into_second_exchange"}
+    g2 = get_session_keys(pairing)
+    try:
+        g2.send(None)
+        g2.send([[k, bytearray(v)] for k, v in m2])
+        g2.send([[k, bytearray(v)] for k, v in m4])
+        out["outcome"] = "hang"
+    except StopIteration:
+        out["outcome"] = "keys"
     except Exception as e:  # noqa: BLE001
         out["outcome"] = "raised"
         out["exception"] = type(e).__name__
